@@ -117,6 +117,19 @@ Theorem one_layer_series_first_terms : forall (Ro sg : R) (q r : rv) (nterms : n
 Proof. exact centre_dipole_closed_form. Qed.
 Print Assumptions one_layer_series_first_terms.
 
+(* both oracles are linear in the dipole moment (superposition; ties C01 to C08) *)
+Theorem sarvas_linear_in_moment : forall (a b : R) (q1 q2 r0 r : rv),
+  sarvas ROps_c01 (radd (rscale a q1) (rscale b q2)) r0 r
+  = radd (rscale a (sarvas ROps_c01 q1 r0 r)) (rscale b (sarvas ROps_c01 q2 r0 r)).
+Proof. exact sarvas_linear. Qed.
+Print Assumptions sarvas_linear_in_moment.
+
+Theorem sphere_pot_linear_in_moment : forall (radii sigmas : list R) (a b : R) (q1 q2 r0 r : rv) (nterms : nat),
+  sphere_pot ROps_c01 radii sigmas (radd (rscale a q1) (rscale b q2)) r0 r nterms
+  = a * sphere_pot ROps_c01 radii sigmas q1 r0 r nterms + b * sphere_pot ROps_c01 radii sigmas q2 r0 r nterms.
+Proof. exact sphere_pot_linear. Qed.
+Print Assumptions sphere_pot_linear_in_moment.
+
 (* hypotheses are satisfiable: a rotation that is not the identity, a source inside the sensor sphere *)
 Example rotation_exists : (1/2)*(1/2) + (1/2)*(1/2) + (1/2)*(1/2) + (1/2)*(1/2) = 1 /\
   qrot (1/2) (1/2) (1/2) (1/2) (V3 1 0 0) = V3 0 1 0.
